@@ -10,6 +10,7 @@ import ChessVerif.Spec.Rules
 import ChessVerif.Props.C11
 import ChessVerif.Lemmas.KingMoves
 import ChessVerif.Lemmas.CastleSafe
+import ChessVerif.Lemmas.GenShapeWf
 namespace Chess.Props
 
 /-- the rules-level move a packed engine move denotes in position p -/
@@ -165,5 +166,19 @@ theorem C01_castling_emitted (p : Position) (h0 : checkersBB (BBs.of p) p.board 
     apply List.mem_append_right
     rw [if_neg hs, if_pos hc]
     exact List.mem_singleton.2 rfl
+
+/-- **no move appears twice** (the third clause of C01), for every well-formed position: the generated list is duplicate-free.
+    Proof (Lemmas/GenBasics.lean, GenPawn.lean, GenPins.lean, GenShape.lean): `bitsOf` is strictly increasing; every group of the
+    generator is described by the kind of the piece on the origin square and whether that square is pinned, the seven pawn groups
+    by offset and promotion (`PawnMv`, `pawnIdxOf`), the en-passant captures by their empty target (never in the capture mask),
+    pins on different rays name different squares (finite bit-scan tables over king square × ray × subset of the ray, evaluated in the
+    kernel), castling codes differ from every 15-bit code. -/
+theorem C01_no_duplicates (p : Position) (hwf : Spec.wf (Chess.absPos p) = true) : (genMoves p).Nodup :=
+  genMoves_nodup p hwf
+
+/-- every generated move is one of the two castling codes or the 15-bit code of (from, to, promotion) with an own piece on `from`
+    and a promotion piece N/B/R/Q exactly when a pawn arrives on an end rank -/
+theorem C01_move_shape (p : Position) (hwf : Spec.wf (Chess.absPos p) = true) : genShapeB p = true :=
+  genShapeB_of_wf p hwf
 
 end Chess.Props
